@@ -724,11 +724,17 @@ pub fn run_histories(out: &mut Out, rng: &mut Rng, tier: Tier, mask: u64) {
         out.input_class(&format!("history:{:?}", match kind { MapperKind::Recursive(_) => MapperKind::Recursive(0), k => k }));
         // a clean-up call is repeated immediately every other time (idempotence: the second run must free nothing)
         let mut repeat: Option<Op> = None;
+        // forced continuation of a "disabled parent" window (see below)
+        let mut window: std::collections::VecDeque<Op> = std::collections::VecDeque::new();
         for _ in 0..nops {
             let repeated = repeat.is_some();
+            let forced = repeat.is_none() && !window.is_empty();
             let mut op = match repeat.take() {
                 Some(o) => o,
-                None => gen_op(rng, &uni, &mut hist, &canaries),
+                None => match window.pop_front() {
+                    Some(o) => o,
+                    None => gen_op(rng, &uni, &mut hist, &canaries),
+                },
             };
             if op.opcode >= 9 && !repeated && rng.chance(1, 2) {
                 repeat = Some(Op { opcode: op.opcode, szc: op.szc, page: op.page, frame: op.frame, flags: op.flags, pflags: op.pflags });
@@ -738,6 +744,34 @@ pub fn run_histories(out: &mut Out, rng: &mut Rng, tier: Tier, mask: u64) {
                     op = gen_op(rng, &uni, &mut hist, &canaries);
                 }
                 hist.pages.retain(|&(p, _)| p4_index(p) != r);
+            }
+            // Disabled-parent window: every fourth parent-flag call takes PRESENT away from the parent entry (a region
+            // switched off temporarily - the entry stays non-zero, everything below it becomes unreachable), is followed
+            // by one or two clean-up calls (which must neither free nor unlink the table holding that entry, nor the
+            // subtree below it) and by the same call with PRESENT again. No other operation runs inside the window:
+            // mapping below a non-present parent is outside the documented states.
+            // (Not for the recursive mapper: it reaches a table *through* its parent entries, so a non-present parent
+            // is a page fault on real hardware - outside its contract.)
+            if (5..=7).contains(&op.opcode) && !forced && !repeated && !matches!(kind, MapperKind::Recursive(_)) && rng.chance(1, 4) {
+                let restore = Op { opcode: op.opcode, szc: op.szc, page: op.page, frame: 0, flags: op.flags | 1, pflags: 0 };
+                op.flags &= !1;
+                if op.flags == 0 {
+                    op.flags = 2;
+                }
+                let cu = if rng.chance(1, 2) {
+                    Op { opcode: 9, szc: 0, page: 0, frame: 0, flags: 0, pflags: 0 }
+                } else {
+                    let a = op.page & !0xfff;
+                    let (s, e) = match rng.below(3) {
+                        0 => (a & !((1 << 30) - 1), (a & !((1 << 30) - 1)).wrapping_add((1 << 30) - 4096)),
+                        1 => (a & !((1 << 39) - 1), sign_extend((a & !((1u64 << 39) - 1)).wrapping_add((1 << 39) - 4096))),
+                        _ => (a, a),
+                    };
+                    Op { opcode: 10, szc: 0, page: sign_extend(s) & !0xfff, frame: sign_extend(e) & !0xfff, flags: 0, pflags: 0 }
+                };
+                out.input_class("window:parent-not-present");
+                window.push_back(cu);
+                window.push_back(restore);
             }
             // allocator script: up to 3 answers, fresh frames in random order, failures injected
             let mut answers: Vec<Option<u64>> = Vec::new();
